@@ -32,7 +32,7 @@ TECHNIQUE = ("runtime monitoring: real TorControlProtocol against an HMAC-comput
              "and single-fault enumeration over every authentication/bootstrap step; write-time wire monitor, "
              "password-provider call counter, post_bootstrap call counter, reference decision table and reference HMACs")
 LEVEL_TEXT = ("Held on the executions observed: the complete product of all 64 orderings of non-empty subsets of "
-              "{NULL,HASHEDPASSWORD,COOKIE,SAFECOOKIE} x 8 cookie-file conditions x 14 password-provider shapes "
+              "{NULL,HASHEDPASSWORD,COOKIE,SAFECOOKIE} x 8 cookie-file conditions x 15 password-provider shapes (protocol built directly, via TorProtocolFactory, or without any provider in the three possible ways) "
               "against a correct server (thorough; quick: a seed-dependent stratified subset, >= 3 cases of every "
               "stratum), plus one injected fault "
               "(wrong/unverifiable SERVERHASH in 12 shapes, 10 malformed AUTHCHALLENGE replies, 5xx with and "
@@ -48,9 +48,13 @@ RULE = ("a case = (ordered list of advertised methods, cookie-file condition, pa
         "to the case were evaluated.")
 ASSUMPTIONS = [
     "leniency: when an advertised method is unusable (COOKIEFILE absent, cookie unreadable or of wrong length, "
-    "provider absent / returns no password / fails) the client may either fail or fall back to a lower-preference "
+    "a configured provider returns no password / fails) the client may either fail or fall back to a lower-preference "
     "advertised method; never accepted: using a lower-preference method while a higher-preference one is usable, "
     "or a method that is not advertised",
+    "a protocol built WITHOUT a password provider (TorControlProtocol(), TorControlProtocol(None), "
+    "TorProtocolFactory(password_function=None)) has no password method at all: an advertised HASHEDPASSWORD is then "
+    "skipped, it is not an 'unusable method' that excuses failing - the next advertised usable method (NULL) must be "
+    "used. TorProtocolFactory()'s own default provider (returns None) counts as a configured provider without password",
     "positive reading of 'it uses': against a correct server, when the highest-preference advertised method is "
     "usable the client must attempt it (and under SAFECOOKIE send its proof after a canonical correct challenge)",
     "a 5xx to 'GETINFO signal/names' is tolerated by design (fallback to a default signal list): post_bootstrap may "
@@ -97,6 +101,7 @@ FLOORS = {'quick': {'evaluations': 550,
            'ready_failures_checked': 480,
            'ready_successes_checked': 75,
            'escaped_paths_read': 160,
+           'no_provider_skips_password_checks': 4,
            'reach:txtorcon.torcontrolprotocol:TorControlProtocol._do_authenticate': 520,
            'reach:txtorcon.torcontrolprotocol:TorControlProtocol._safecookie_authchallenge': 150,
            'reach:txtorcon.torcontrolprotocol:TorControlProtocol._auth_failed': 480,
@@ -116,6 +121,7 @@ FLOORS = {'quick': {'evaluations': 550,
               'ready_failures_checked': 3500,
               'ready_successes_checked': 360,
               'escaped_paths_read': 1400,
+              'no_provider_skips_password_checks': 13,
               'reach:txtorcon.torcontrolprotocol:TorControlProtocol._do_authenticate': 3500,
               'reach:txtorcon.torcontrolprotocol:TorControlProtocol._safecookie_authchallenge': 1250,
               'reach:txtorcon.torcontrolprotocol:TorControlProtocol._auth_failed': 3500,
@@ -131,7 +137,7 @@ PREF = ["SAFECOOKIE", "COOKIE", "HASHEDPASSWORD", "NULL"]          # highest pre
 COOKIES = ["absent", "missing", "dir", "len0", "len31", "len33", "len64", "valid"]
 COOKIE_LEN = {"len0": 0, "len31": 31, "len33": 33, "len64": 64, "valid": 32}
 PROVIDERS = ["none", "str", "bytes", "empty", "returns-none", "deferred", "deferred-late", "deferred-fail",
-             "deferred-late-fail", "coroutine", "coroutine-late", "coroutine-raising", "raising", "wrong"]
+             "deferred-late-fail", "coroutine", "coroutine-late", "coroutine-raising", "raising", "wrong", "factory-default"]
 PROVIDER_HAS_PASSWORD = {"str", "bytes", "deferred", "deferred-late", "coroutine", "coroutine-late", "wrong"}
 # directory name, file name: real names on disk, everything Tor's QuotedString must escape
 FLAVOURS = {
@@ -238,6 +244,8 @@ def reference(case):
         if m in adv:
             if usable[m]:
                 return m, blocked
+            if m == "HASHEDPASSWORD" and case["provider"] == "none":
+                continue            # no provider configured: the method does not exist for this client
             blocked = True
     return None, True
 
@@ -402,9 +410,34 @@ def content_for(case):
     return cookie, pw
 
 
+def build_protocol(case, prov):
+    """the real protocol object, created the way applications create it"""
+    from txtorcon import TorControlProtocol, TorProtocolFactory
+    how = case.get("construct", "direct")
+    if case["provider"] == "factory-default":
+        # TorProtocolFactory()'s own default provider; wrapped afterwards only to count its calls
+        proto = TorProtocolFactory().buildProtocol(None)
+        inner = proto.password_function
+
+        def counted():
+            prov.calls += 1
+            return inner()
+        if inner is not None:
+            proto.password_function = counted
+        return proto
+    if case["provider"] == "none":
+        if how == "no-arg":
+            return TorControlProtocol()
+        if how == "factory-none":
+            return TorProtocolFactory(password_function=None).buildProtocol(None)
+        return TorControlProtocol(None)
+    if how == "factory":
+        return TorProtocolFactory(password_function=prov.function()).buildProtocol(None)
+    return TorControlProtocol(prov.function())
+
+
 def execute(case, ctx):
     """run one case to quiescence; -> observation dict"""
-    from txtorcon import TorControlProtocol
     cookie, pw = content_for(case)
     kind = case["cookie"]
     path, top = ctx.scratch.make(kind, case.get("path", "plain"), cookie)
@@ -414,7 +447,7 @@ def execute(case, ctx):
         tor = AuthTor(auth_methods=list(case["methods"]), cookie=cookie, cookiefile=path,
                       password=pw.encode("ascii"), fault=tuple(fault) if fault else None, quote_style=style)
         prov = Provider(case["provider"], pw)
-        proto = TorControlProtocol(prov.function())
+        proto = build_protocol(case, prov)
         clock = LClock()
         aud = Auditor(clock)
         calls = []
@@ -515,6 +548,10 @@ def judge(case, obs, rec, ctx):
     # ---- clause 2: preference / usable / advertised -------------------------------------------------
     if pinfo_ok:
         rec.count("method_decisions_checked")
+        if case["provider"] == "none" and "HASHEDPASSWORD" in case["methods"] and best == "NULL" and not blocked:
+            # no provider configured: the advertised password method must be skipped, NULL used
+            rec.count("no_provider_skips_password_checks")
+            rec.seen("constructions_without_provider", case.get("construct", "direct"))
         if attempt is None:
             if best is not None and not blocked and not waited_loss:
                 V("usable-method-not-used", dec_cls + "/path=" + flavour_class(case), {"best": best})
@@ -702,6 +739,8 @@ def run_case(case, rec, ctx):
 # ---------------------------------------------------------------------------
 # driver interface
 
+CONSTRUCT_NONE = ["arg-none", "no-arg", "factory-none"]      # the three ways of having no provider
+CONSTRUCT_SOME = ["direct", "factory"]
 CHUNKINGS = [[1 << 30], [1], [7], None]        # None = a generated cycle
 
 
@@ -714,6 +753,7 @@ def materialise(idx, base, seed):
     case["quote"] = rnd.choice(["spec", "tor"])
     ch = rnd.choice(CHUNKINGS)
     case["chunking"] = ch if ch is not None else gen.chunking(rnd)
+    case["construct"] = rnd.choice(CONSTRUCT_NONE if base["provider"] == "none" else CONSTRUCT_SOME)
     return case
 
 
